@@ -203,7 +203,7 @@ fn fuzz(seed: u64, count: usize, outp: &str) {
     let mut rng = StdRng::seed_from_u64(seed);
     let mut out = Out::create(outp);
     let corpus: Vec<Vec<u8>> = (0..24)
-        .map(|i| proj::un_registry(&json!((0..(i % 5)).map(|_| rand_wide_entry(&mut rng)).collect::<Vec<_>>())).encode())
+        .map(|i| proj::un_registry(&json!((0..(if i % 8 == 7 { 40 + i } else { i % 5 })).map(|_| rand_wide_entry(&mut rng)).collect::<Vec<_>>())).encode())
         .collect();
     let specials: [u8; 12] = [0, 1, 2, 3, 0x3f, 0x40, 0x7f, 0x80, 0xfc, 0xfd, 0xfe, 0xff];
     let (mut n, mut viol, mut oks) = (0u64, 0u64, 0u64);
